@@ -6,6 +6,7 @@ mod c03;
 mod c11;
 mod c12;
 mod c15;
+mod c16;
 
 fn main() {
     let args = Args::parse();
@@ -16,6 +17,7 @@ fn main() {
         "C11" => c11::run(&args, &mut mon),
         "C12" => c12::run(&args, &mut mon),
         "C15" => c15::run(&args, &mut mon),
+        "C16" => c16::run(&args, &mut mon),
         other => panic!("chk-codec does not implement {other}"),
     };
     let code = mon.finish(&args, &rule, &assumptions);
